@@ -1,8 +1,9 @@
 /-
   C05 — a resource has at most one holder at any time (mutual exclusion)
-  Property theorems only (the process-layer model is CimbaModel/Sim; helper lemmas in CimbaModel/Sim/*).
+  Property theorems only (the process-layer model is CimbaModel/Sim; helper lemmas in CimbaModel/Sim/S1*.lean).
 -/
 import CimbaModel.Sim.Basic
+import CimbaModel.Sim.S1HolderStep
 import CimbaModel.HashHeap.Orders
 
 namespace CimbaModel.Props.C05
@@ -21,11 +22,101 @@ theorem acquire_of_held_blocks (w : World) (p q : Pid) (r : Nat) (x : Res)
   unfold acquireStep
   simp only [hx, hq]
   refine ⟨_, rfl, ?_⟩
-  simp only [block, World.modProc, guardWaitEnter]
-  split
-  · simp [World.fail]; split <;> rfl
-  · split
-    · simp [addAwait, World.modProc]
-    · simp [World.fail]; split <;> rfl
+  simp
+
+/-! ### the holder invariant -/
+
+/-- **The holder invariant.**  For every resource `r` of the world and every process `p`:
+    the resource names `p` as its holder exactly when `p` lists the resource among what it holds; no process lists a
+    resource twice; a holder is a process of the table; and nobody lists a resource that does not exist. -/
+structure HolderInv (w : World) : Prop where
+  agree : ∀ (r : Nat) (x : Res) (p : Pid), w.res[r]? = some x → p < w.procs.size → (x.holder = some p ↔ HoldRef.res r ∈ (w.proc p).held)
+  once : ∀ p r, (w.proc p).held.count (.res r) ≤ 1
+  bound : ∀ (r : Nat) (x : Res) (p : Pid), w.res[r]? = some x → x.holder = some p → p < w.procs.size
+  real : ∀ r p, w.res[r]? = none → HoldRef.res r ∉ (w.proc p).held
+
+/-- the invariant in the one-line form used by the proofs: process `p` lists resource `r` once if it is the holder and
+    not at all otherwise -/
+theorem holderInv_iff (w : World) : HolderInv w ↔ HInv w := by
+  constructor
+  · intro h r p
+    unfold World.hcount
+    cases hx : w.res[r]? with
+    | none =>
+      rw [holder_none_of_no_res w r hx]
+      simp only [reduceCtorEq, if_false]
+      exact List.count_eq_zero.2 (h.real r p hx)
+    | some x =>
+      rw [holder_eq w r x hx]
+      by_cases e : x.holder = some p
+      · have hp := h.bound r x p hx e
+        have hm := (h.agree r x p hx hp).1 e
+        have := h.once p r
+        have : 0 < (w.proc p).held.count (.res r) := List.count_pos_iff.2 hm
+        rw [if_pos e]; omega
+      · rw [if_neg e]
+        apply List.count_eq_zero.2
+        intro hm
+        have hp := lt_np_of_held w p _ hm
+        exact e ((h.agree r x p hx hp).2 hm)
+  · intro h
+    refine ⟨?_, ?_, ?_, ?_⟩
+    · intro r x p hx _
+      rw [h.mem_iff r p, holder_eq w r x hx]
+    · intro p r; exact h.count_le_one r p
+    · intro r x p hx hh
+      exact h.holder_lt r p (by rw [holder_eq w r x hx, hh])
+    · intro r p hx hm
+      have := (h.mem_iff r p).1 hm
+      rw [holder_none_of_no_res w r hx] at this
+      cases this
+
+/-- **at most one holder**: two processes that both list a resource are the same process -/
+theorem at_most_one_holder {w : World} (h : HolderInv w) (r : Nat) (p q : Pid)
+    (hp : HoldRef.res r ∈ (w.proc p).held) (hq : HoldRef.res r ∈ (w.proc q).held) : p = q :=
+  ((holderInv_iff w).1 h).unique r p q hp hq
+
+/-- the invariant holds in every world in which no resource has a holder and no process lists a resource -/
+theorem holderInv_init (w : World) (hres : ∀ (r : Nat) (x : Res), w.res[r]? = some x → x.holder = none)
+    (hheld : ∀ p r, HoldRef.res r ∉ (w.proc p).held) : HolderInv w := by
+  refine ⟨?_, ?_, ?_, ?_⟩
+  · intro r x p hx _
+    rw [hres r x hx]
+    constructor
+    · intro e; cases e
+    · intro m; exact absurd m (hheld p r)
+  · intro p r
+    rw [List.count_eq_zero.2 (hheld p r)]; omega
+  · intro r x p hx hh
+    rw [hres r x hx] at hh; cases hh
+  · intro r p _; exact hheld p r
+
+/-- every command of every script keeps the invariant (`p` any process of the table) -/
+theorem holderInv_execCmd {w : World} (h : HolderInv w) (p : Pid) (hp : p < w.procs.size) (c : Cmd) :
+    HolderInv (execCmd w p c).1 :=
+  (holderInv_iff _).2 (hinv_execCmd ((holderInv_iff w).1 h) p hp c)
+
+/-- every continuation of a suspended library call keeps the invariant -/
+theorem holderInv_resumeFrame {w : World} (h : HolderInv w) (p : Pid) (hp : p < w.procs.size) (f : Frame) (sig : Int) :
+    HolderInv (resumeFrame w p f sig).1 :=
+  (holderInv_iff _).2 (hinv_resumeFrame ((holderInv_iff w).1 h) p hp f sig)
+
+/-- the end of a process (return, exit, stop) keeps the invariant -/
+theorem holderInv_finishProc {w : World} (h : HolderInv w) (p : Pid) (val : Int) (stopped : Bool) :
+    HolderInv (finishProc w p val stopped) :=
+  (holderInv_iff _).2 (hinv_finishProc ((holderInv_iff w).1 h) p val stopped)
+
+/-- running a process until it blocks or ends keeps the invariant, for any script and any amount of fuel -/
+theorem holderInv_runScript {w : World} (h : HolderInv w) (fuel : Nat) (p : Pid) : HolderInv (runScript fuel w p) :=
+  (holderInv_iff _).2 (hinv_runScript fuel ((holderInv_iff w).1 h) p)
+
+/-- **every dispatched event keeps the invariant**: whatever event is next (start, timer, wake-up of any kind,
+    interrupt, resume, user event), whatever the woken process then executes until it blocks or ends -/
+theorem holderInv_dispatch {w w' : World} (h : HolderInv w) (hd : dispatch w = some w') : HolderInv w' :=
+  (holderInv_iff _).2 (hinv_dispatch ((holderInv_iff w).1 h) hd)
+
+/-- the invariant holds at every instant of every run -/
+theorem holderInv_runAll {w : World} (h : HolderInv w) (fuel : Nat) : HolderInv (runAll fuel w) :=
+  (holderInv_iff _).2 (hinv_runAll fuel ((holderInv_iff w).1 h))
 
 end CimbaModel.Props.C05
